@@ -251,3 +251,16 @@ package rsm
 //@ requires s.index < MaxUint64
 //@ modifies held(s.mu), s.index, s.term
 //@ ensures s.index == e.Index && old(s.index) + 1 == e.Index && gUpdates == old(gUpdates)
+
+// classification of a task's entries decides between the batched path (which bypasses the
+// session table) and the per-entry path: batching is allowed only if EVERY entry is a
+// NoOP-session update
+//@ pred isUpd(e pb.Entry) := e.Type != pb.ConfigChangeEntry && e.ClientID != sentinel("client", "NotSessionManagedClientID") &&
+//@   !(len(e.Cmd) == 0 && e.SeriesID == sentinel("client", "SeriesIDForRegister")) && !(len(e.Cmd) == 0 && e.SeriesID == sentinel("client", "SeriesIDForUnregister"))
+//@ pred isNoOPSess(e pb.Entry) := e.SeriesID == sentinel("client", "NoOPSeriesID")
+
+//@ func getEntryTypes [C02 C05 C11]
+//@ ensures result0 == (forall j int :: 0 <= j && j < len(entries) ==> isUpd(entries[j]))
+//@ ensures result1 == (forall j int :: 0 <= j && j < len(entries) ==> isNoOPSess(entries[j]))
+//@ loop 1 invariant allUpdate == (forall j int :: 0 <= j && j <= $i ==> isUpd(entries[j]))
+//@ loop 1 invariant allNoOP == (forall j int :: 0 <= j && j <= $i ==> isNoOPSess(entries[j]))
